@@ -16,7 +16,19 @@ level and hash function:
   C11_recoverable (def) / C11_recoverable_false
                           the full statement is FALSE: equal content under two keys, delete one, commit, two GC passes
                           (open finding C11-F2); the same history with different values is recoverable (example)
-  C11_recoverable_partial MAIN (what is proved of the full statement): for EVERY history of Update / Delete / Root() /
+  C11_recoverable_partial MAIN, WITH GC: for every history of Update / Delete / Root() / Commit(any level) / DeleteNodes — GC
+                          passes in any position (also while changes are uncommitted) and any number — under
+                          `NoSharedContent` (at no time of the history two live positions hold nodes with equal hash; the
+                          exact complement of the matcher of finding C11-F2): every node of the last committed trie stays
+                          in storage (`C11_gc_safe`), so a history that ends committed is recoverable: the reopened trie
+                          is observationally identical to the live one, with the spec's answers
+                          (`C11_gc_answers_are_spec`); `C11_crash_gc`: after EVERY prefix of the history — i.e. at every
+                          crash point between storage operations, GC batches included — the last committed root is fully
+                          resolvable. Invariant `GInv` (Lemmas/WmptGcDefs.lean): nothing in `deleted ∪ tempDeleted` is a
+                          node of the last committed trie; nothing in `pendingDeleted` or cached in a dirty node is a node
+                          the live trie still holds clean; Commit's erase of re-created hashes restores it.
+                          `opsF2_not_distinct`: the refuting history violates exactly this hypothesis.
+  C11_recoverable_nogc    the GC-free variant needs no `NoSharedContent`, only relative collision-freeness: for EVERY history of Update / Delete / Root() /
                           Commit(any collapse level) — updates and deletes of keys whose subtrees were collapsed to
                           references are resolved on demand through storage — that ends committed, the trie reopened
                           from (root hash, weight) is observationally identical to the live one: same weight and, for
@@ -30,9 +42,15 @@ level and hash function:
                           earlier committed root is still fully resolvable: a trie opened from its (hash, weight)
                           answers every block with the owner's key and the honest, verifying proof. Collision-freeness
                           relative to a subtree-closed set S containing the spec tries of all prefixes.
-Not proved: GC safety (that no pass deletes a node of the last committed trie when no two positions ever hold nodes with
-equal hash) — the hypothesis of the partial theorem is therefore "no GC pass", which is stronger than the complement of
-the F2 matcher; see notes/C11.md. GC is checked by the reopen oracle and the correspondence run on every history.
+  C11_reload_*            histories that CONTINUE ON A RELOADED TRIE (Model/WmptReload.lean: `reload` forgets the in-memory trie,
+                          its uncommitted changes and its deletion queues and opens New(NewHashNode(root, weight), storage)
+                          from the root hash and weight recorded at the last Commit), reloads in any position and number,
+                          mixed with Update / Delete / Root() / Commit / DeleteNodes: under `NoSharedContentR` (the same
+                          hypothesis over such histories; plus: a committed trie of total weight 0 is the empty one —
+                          the harness opens the empty trie for weight 0) the same four conclusions: `C11_reload_gc_safe`,
+                          `C11_reload_recoverable`, `C11_reload_answers_are_spec` (also right after a reload:
+                          `C11_reload_resumes`), `C11_reload_crash`.
+Histories containing Rollback / RollbackTrie are treated in Props/C13.
 -/
 import Verif.Lemmas.WmptOps
 import Verif.Lemmas.WmptCommit
@@ -40,6 +58,8 @@ import Verif.Lemmas.WmptReopen
 import Verif.Lemmas.WmptSpec
 import Verif.Lemmas.WmptHistoryInv
 import Verif.Lemmas.WmptCrash
+import Verif.Lemmas.WmptGcInv
+import Verif.Lemmas.WmptReload
 import Verif.Model.WmptToy
 namespace Verif.Props.C11
 open Verif.Wmpt
@@ -104,7 +124,7 @@ def keyD : List Nib := 2 :: List.replicate 63 4
 
 /-- MAIN: histories of updates / deletes / hash reads / commits at any collapse level, ending committed, are recoverable:
     the reopened trie is observationally identical to the live one. -/
-theorem C11_recoverable_partial (H : Bytes → Bytes) (hlen : ∀ x, (H x).length = 32) (ops : List HOp)
+theorem C11_recoverable_nogc (H : Bytes → Bytes) (hlen : ∀ x, (H x).length = 32) (ops : List HOp)
     (hall : ∀ op ∈ ops, op.plain ∧ op.wf)
     (hok : ∀ p q, ops = p ++ q → RepOps.PTOK (specRun p))
     (hinj : ∀ p lvl q, ops = p ++ .commit lvl :: q → HashInj H (fun x => PT.Sub x (specRun p)))
@@ -163,6 +183,134 @@ example :
   · decide
   · decide
 
+/-! ### GC safety -/
+
+/-- at no time of the history two live positions hold nodes with equal hash (nor does a node hash to 32 zero bytes or
+    to the hash of the empty string): the complement of the matcher of finding C11-F2, plus sizes below 2^64 -/
+def NoSharedContent (H : Bytes → Bytes) (ops : List HOp) : Prop :=
+  ∀ p q, ops = p ++ q → RepOps.PTOK (specRun p) ∧ Distinct H (specRun p)
+
+/-- every node of the last committed trie stays in storage, whatever GC passes ran -/
+theorem C11_gc_safe (H : Bytes → Bytes) (hlen : ∀ x, (H x).length = 32) (ops : List HOp)
+    (hall : ∀ op ∈ ops, op.plainGC ∧ op.wf) (hns : NoSharedContent H ops) :
+    StoredAll H (hrun H ops).t.store (committedRun ops) :=
+  gc_stored hlen ops hall hns
+
+/-- MAIN: the full statement under `NoSharedContent` -/
+theorem C11_recoverable_partial (H : Bytes → Bytes) (hlen : ∀ x, (H x).length = 32) (ops : List HOp)
+    (hall : ∀ op ∈ ops, op.plainGC ∧ op.wf) (hns : NoSharedContent H ops)
+    (hd : (hrun H ops).t.root.dirty = false) :
+    sameAnswers H (reopen H (hrun H ops).t) (hrun H ops).t :=
+  gc_recoverable hlen ops hall hns hd
+
+/-- …with the spec's answers -/
+theorem C11_gc_answers_are_spec (H : Bytes → Bytes) (hlen : ∀ x, (H x).length = 32) (ops : List HOp)
+    (hall : ∀ op ∈ ops, op.plainGC ∧ op.wf) (hns : NoSharedContent H ops)
+    (hd : (hrun H ops).t.root.dirty = false) (b : Nat) (hb1 : 1 ≤ b) (hb : b ≤ (specRun ops).weight) :
+    ∃ k v key, ownerSpec (specRun ops).entries b = some (k, v) ∧ RepMore.keybytesToHex key = k ∧ key.length = 32 ∧
+      (blockProof H (reopen H (hrun H ops).t) b).2 = .ok (key, Cbor.encTrie (((specRun ops).proofPairs H b).map Cbor.encBase)) ∧
+      (blockProof H (hrun H ops).t b).2 = .ok (key, Cbor.encTrie (((specRun ops).proofPairs H b).map Cbor.encBase)) ∧
+      verifyPairs H (((specRun ops).proofPairs H b).map PairD.ok) b = .ok ((rootHash H (hrun H ops).t).2, v) :=
+  gc_answers_are_spec hlen ops hall hns hd b hb1 hb
+
+/-- crash clause with GC: after every prefix of the history the last committed root is fully resolvable -/
+theorem C11_crash_gc (H : Bytes → Bytes) (hlen : ∀ x, (H x).length = 32) (ops : List HOp)
+    (hall : ∀ op ∈ ops, op.plainGC ∧ op.wf) (hns : NoSharedContent H ops)
+    (p q : List HOp) (hsplit : ops = p ++ q) :
+    StoredAll H (hrun H p).t.store (committedRun p) ∧
+    ∀ b, 1 ≤ b → b ≤ (committedRun p).weight →
+      ∃ k v key, ownerSpec (committedRun p).entries b = some (k, v) ∧ RepMore.keybytesToHex key = k ∧
+        (blockProof H { root := .hashRef (PT.hash H (committedRun p)) (committedRun p).weight,
+                        store := (hrun H p).t.store } b).2 =
+          .ok (key, Cbor.encTrie (((committedRun p).proofPairs H b).map Cbor.encBase)) ∧
+        verifyPairs H (((committedRun p).proofPairs H b).map PairD.ok) b = .ok (PT.hash H (committedRun p), v) := by
+  refine ⟨(ginv_prefix hlen ops hall hns p q hsplit).stored, ?_⟩
+  intro b hb1 hb
+  obtain ⟨k, v, key, h1, h2, _, _, h5, h6⟩ := gc_crash hlen ops hall hns p q hsplit b hb1 hb
+  exact ⟨k, v, key, h1, h2, h5, h6⟩
+
+/-! ### histories that continue on a reloaded trie -/
+
+/-- `NoSharedContent` for histories with reloads; a committed trie of total weight 0 is the empty trie (weights of 0 are
+    legal, and a trie reopened for weight 0 is the empty one) -/
+def NoSharedContentR (H : Bytes → Bytes) (ops : List ROp) : Prop :=
+  ∀ p q, ops = p ++ q → RepOps.PTOK (rspecRun p).1 ∧ Distinct H (rspecRun p).1 ∧
+    ((rspecRun p).2.weight = 0 → (rspecRun p).2 = .none)
+
+/-- every node of the last committed trie stays in storage, whatever GC passes and reloads happened -/
+theorem C11_reload_gc_safe (H : Bytes → Bytes) (hlen : ∀ x, (H x).length = 32) (ops : List ROp)
+    (hall : ∀ op ∈ ops, op.ok) (hns : NoSharedContentR H ops) :
+    StoredAll H (rrun H ops).h.t.store (rspecRun ops).2 :=
+  reload_stored hlen ops hall hns
+
+/-- a history with reloads that ends with a clean root (after a Commit or a reload) is recoverable -/
+theorem C11_reload_recoverable (H : Bytes → Bytes) (hlen : ∀ x, (H x).length = 32) (ops : List ROp)
+    (hall : ∀ op ∈ ops, op.ok) (hns : NoSharedContentR H ops)
+    (hd : (rrun H ops).h.t.root.dirty = false) :
+    sameAnswers H (reopen H (rrun H ops).h.t) (rrun H ops).h.t :=
+  reload_recoverable hlen ops hall hns hd
+
+/-- …with the spec's answers (live content of the history: what was committed last plus nothing, since the root is clean) -/
+theorem C11_reload_answers_are_spec (H : Bytes → Bytes) (hlen : ∀ x, (H x).length = 32) (ops : List ROp)
+    (hall : ∀ op ∈ ops, op.ok) (hns : NoSharedContentR H ops)
+    (hd : (rrun H ops).h.t.root.dirty = false) (b : Nat) (hb1 : 1 ≤ b) (hb : b ≤ (rspecRun ops).1.weight) :
+    ∃ k v key, ownerSpec (rspecRun ops).1.entries b = some (k, v) ∧ RepMore.keybytesToHex key = k ∧ key.length = 32 ∧
+      (blockProof H (reopen H (rrun H ops).h.t) b).2 =
+        .ok (key, Cbor.encTrie (((rspecRun ops).1.proofPairs H b).map Cbor.encBase)) ∧
+      (blockProof H (rrun H ops).h.t b).2 =
+        .ok (key, Cbor.encTrie (((rspecRun ops).1.proofPairs H b).map Cbor.encBase)) ∧
+      verifyPairs H (((rspecRun ops).1.proofPairs H b).map PairD.ok) b = .ok ((rootHash H (rrun H ops).h.t).2, v) :=
+  reload_answers_are_spec hlen ops hall hns hd b hb1 hb
+
+/-- the trie right after a reload answers every block like the content of the last commit: uncommitted changes are gone,
+    committed ones are all there -/
+theorem C11_reload_resumes (H : Bytes → Bytes) (hlen : ∀ x, (H x).length = 32) (p : List ROp)
+    (hall : ∀ op ∈ p ++ [.reload], op.ok) (hns : NoSharedContentR H (p ++ [.reload]))
+    (b : Nat) (hb1 : 1 ≤ b) (hb : b ≤ (rspecRun p).2.weight) :
+    ∃ k v key, ownerSpec (rspecRun p).2.entries b = some (k, v) ∧ RepMore.keybytesToHex key = k ∧ key.length = 32 ∧
+      (blockProof H (rrun H (p ++ [.reload])).h.t b).2 =
+        .ok (key, Cbor.encTrie (((rspecRun p).2.proofPairs H b).map Cbor.encBase)) ∧
+      verifyPairs H (((rspecRun p).2.proofPairs H b).map PairD.ok) b =
+        .ok ((rootHash H (rrun H (p ++ [.reload])).h.t).2, v) := by
+  obtain ⟨k, v, key, h1, h2, h3, _, h5, h6⟩ := reload_after_reload_answers hlen p hall hns b hb1 hb
+  exact ⟨k, v, key, h1, h2, h3, h5, h6⟩
+
+/-- crash clause: after every prefix of a history with GC passes and reloads the last committed root is fully resolvable -/
+theorem C11_reload_crash (H : Bytes → Bytes) (hlen : ∀ x, (H x).length = 32) (ops : List ROp)
+    (hall : ∀ op ∈ ops, op.ok) (hns : NoSharedContentR H ops)
+    (p q : List ROp) (hsplit : ops = p ++ q) :
+    StoredAll H (rrun H p).h.t.store (rspecRun p).2 ∧
+    ∀ b, 1 ≤ b → b ≤ (rspecRun p).2.weight →
+      ∃ k v key, ownerSpec (rspecRun p).2.entries b = some (k, v) ∧ RepMore.keybytesToHex key = k ∧
+        (blockProof H { root := .hashRef (PT.hash H (rspecRun p).2) (rspecRun p).2.weight,
+                        store := (rrun H p).h.t.store } b).2 =
+          .ok (key, Cbor.encTrie (((rspecRun p).2.proofPairs H b).map Cbor.encBase)) ∧
+        verifyPairs H (((rspecRun p).2.proofPairs H b).map PairD.ok) b = .ok (PT.hash H (rspecRun p).2, v) := by
+  refine ⟨(rinv_prefix hlen ops hall hns p q hsplit).ginv.stored, ?_⟩
+  intro b hb1 hb
+  obtain ⟨k, v, key, h1, h2, _, _, h5, h6⟩ := reload_crash hlen ops hall hns p q hsplit b hb1 hb
+  exact ⟨k, v, key, h1, h2, h5, h6⟩
+
+set_option maxRecDepth 1000000 in
+/-- a concrete history with GC passes in every position (toy hash, `decide`): delete + re-add of identical content, a GC
+    pass while changes are uncommitted, hash reads, commits at different collapse levels, three passes at the end —
+    ends committed, is recoverable, and its final content has no shared node -/
+example :
+    let ops : List HOp := [.upd keyA [1, 0xee] 2, .upd keyD [2, 0xee] 3, .commit 1, .gc, .del keyA, .gc, .upd keyA [1, 0xee] 2,
+      .root, .commit 0, .gc, .upd keyD [5] 1, .gc, .commit (-1), .gc, .gc, .gc]
+    (∀ op ∈ ops, op.plainGC ∧ op.wf) ∧ (hrun toyH ops).t.root.dirty = false ∧
+      sameAnswers toyH (reopen toyH (hrun toyH ops).t) (hrun toyH ops).t ∧ (hrun toyH ops).t.weight = 3 ∧
+      (zeros32 :: emptyHash toyH :: NL toyH (specRun ops)).Nodup := by
+  refine ⟨?_, ?_, ?_, ?_, ?_⟩
+  · intro op hop
+    simp only [List.mem_cons, List.not_mem_nil, or_false] at hop
+    rcases hop with h | h | h | h | h | h | h | h | h | h | h | h | h | h | h | h <;> subst h <;>
+      simp [HOp.plainGC, HOp.wf, keyA, keyD]
+  · decide
+  · decide
+  · decide
+  · decide
+
 /-! ### the full statement and its refutation (open finding C11-F2) -/
 
 def HOp.keyOK : HOp → Prop
@@ -178,6 +326,21 @@ def C11_recoverable : Prop :=
     (hrun H ops).t.root.dirty = false →
     ¬ CollisionIn H (putPreimages H (hrun H ops).puts) →
     sameAnswers H (reopen H (hrun H ops).t) (hrun H ops).t
+
+set_option maxRecDepth 1000000 in
+/-- a concrete history with reloads (toy hash, `decide`): commit, an uncommitted change and a GC pass, reload (the change
+    is gone), delete + GC passes on the reloaded trie, commit, reload again, more passes — it ends with a clean root, is
+    recoverable, holds exactly the committed content, and the weight-0 side condition holds where it reloads -/
+example :
+    let ops : List ROp := [.op (.upd keyA [1, 0xee] 2), .op (.upd keyD [2, 0xee] 3), .op (.commit 1), .op (.upd keyA [9] 5),
+      .op .gc, .reload, .op .gc, .op (.del keyD), .op .gc, .op (.commit 0), .op .gc, .op (.upd keyD [4] 1), .reload,
+      .op .gc, .op .gc]
+    (rrun toyH ops).h.t.root.dirty = false ∧
+      sameAnswers toyH (reopen toyH (rrun toyH ops).h.t) (rrun toyH ops).h.t ∧ (rrun toyH ops).h.t.weight = 2 ∧
+      (rspecRun ops).1.entries = (rspecRun ops).2.entries ∧ (rspecRun ops).1.weight = 2 ∧
+      (zeros32 :: emptyHash toyH :: NL toyH (rspecRun ops).1).Nodup := by
+  refine ⟨?_, ?_, ?_, ?_, ?_, ?_⟩ <;> decide
+
 
 /-- two keys with byte-equal (value, weight); delete one; commit; two GC passes -/
 def opsF2 : List HOp :=
@@ -196,6 +359,15 @@ set_option maxRecDepth 1000000 in
 example :
     let ops : List HOp := [.upd keyA [1, 0xee] 2, .upd keyD [2, 0xee] 3, .commit (-1), .del keyA, .commit (-1), .gc, .gc]
     sameAnswers toyH (reopen toyH (hrun toyH ops).t) (hrun toyH ops).t ∧ (hrun toyH ops).t.weight = 3 := by
+  decide
+
+set_option maxRecDepth 1000000 in
+/-- the refuting history violates exactly the hypothesis of `C11_recoverable_partial`: after its second update two
+    live positions hold the same value node; the variant with different values satisfies `Distinct` at that point -/
+theorem opsF2_not_distinct :
+    ¬ Distinct toyH (specRun (opsF2.take 2)) ∧
+    Distinct toyH (specRun [.upd keyA [1, 0xee] 2, .upd keyD [2, 0xee] 3]) := by
+  unfold Distinct
   decide
 
 theorem C11_recoverable_false : ¬ C11_recoverable := by
